@@ -26,6 +26,7 @@ type H struct {
 	Reach []string
 	MaxSteps int64
 	MapOrder bool
+	Cross    bool // thorough tier: every assertion is re-decided by cvc5
 	Minutes  int
 }
 
@@ -219,6 +220,9 @@ func cmdCheck(args []string) int {
 		opts := sx.DefaultOptions()
 		opts.Workers = w
 		opts.MapOrderChoice = h.MapOrder
+		if h.Cross && (tier == "thorough" || os.Getenv("VERIF_CROSS") == "1") {
+			opts.CrossSolver = "cvc5"
+		}
 		if h.MaxSteps > 0 {
 			opts.MaxSteps = h.MaxSteps
 		}
@@ -531,7 +535,8 @@ func writeEvidence(prop *Prop, tier string, seed int, results []*sx.RunResult, p
 		perH = append(perH, map[string]any{"harness": r.Harness, "paths": r.Paths, "paths_completed": r.Done, "paths_pruned_by_assumption": r.Killed,
 			"instructions": r.Steps, "forks": r.Forks, "assertions_checked": r.Obligations, "assertions_discharged": r.Discharged,
 			"solver_queries": r.Solver.Queries, "solver_s": round2(r.Solver.Time.Seconds()), "max_query_s": round2(r.Solver.MaxQuery.Seconds()),
-			"witnesses": r.Reached, "wall_s": round2(r.Wall.Seconds()), "map_range_sites": r.MapRangeSites, "paths_cut_by_model_capacity": r.BoundPrunes})
+			"witnesses": r.Reached, "wall_s": round2(r.Wall.Seconds()), "map_range_sites": r.MapRangeSites, "paths_cut_by_model_capacity": r.BoundPrunes,
+			"assertions_cross_checked_by_cvc5": r.CrossChecked, "cvc5_unknown": r.CrossUnknown})
 	}
 	if len(samples) == 0 {
 		samples = append(samples, "no completed path")
